@@ -491,12 +491,15 @@ func (t *simTxn) Commit() error {
 	}
 	// The durable log must be appended in the same order as the base store
 	// serialises commits; hold the log lock across the base commit.
-	t.s.log.mu.Lock()
-	err := t.t.Commit()
-	if err == nil && len(t.writes) > 0 {
-		t.s.log.batches = append(t.s.log.batches, t.writes)
-	}
-	t.s.log.mu.Unlock()
+	err := func() error {
+		t.s.log.mu.Lock()
+		defer t.s.log.mu.Unlock() // also when the base store panics
+		err := t.t.Commit()
+		if err == nil && len(t.writes) > 0 {
+			t.s.log.batches = append(t.s.log.batches, t.writes)
+		}
+		return err
+	}()
 	t.done = true
 	if err == nil && len(t.writes) > 0 {
 		t.s.committed()
